@@ -159,6 +159,10 @@ func TestVerifC09Dial(t *testing.T) {
 		}
 		cands = rapid.Permutation(cands).Draw(rt, "list_order")
 		useHooks := rapid.Bool().Draw(rt, "force_order")
+		holdFirst := rapid.IntRange(0, 2).Draw(rt, "hold_first_completer") == 1
+		if holdFirst {
+			useHooks = true
+		}
 		firstIdx := rapid.IntRange(0, nreach-1).Draw(rt, "first")
 		first := net.JoinHostPort(perm[firstIdx], fmt.Sprint(srv.port))
 		if rapid.IntRange(0, 5).Draw(rt, "relay_first") == 0 {
@@ -194,6 +198,11 @@ func TestVerifC09Dial(t *testing.T) {
 				switch name {
 				case "ice.probe.dialed":
 					if detail == first {
+						if holdFirst {
+							// the only (or first) attempt to succeed dawdles between its handshake
+							// and handing the connection over
+							time.Sleep(120 * time.Millisecond)
+						}
 						return
 					}
 					// a later completer: wait until the caller has taken the winner, then finish
